@@ -122,7 +122,8 @@ class Writer:
         ls = text.split('\n')
         out = [L(' ' * first_indent + ls[0], False, [b])]
         for l in ls[1:]:
-            out.append(L(l, True))
+            # a line that is only kept from being a block start by its indentation must keep all container prefixes
+            out.append(L(l, not l.startswith('    ')))
         return out
 
     def blocks(self, bs, tight=False, in_item=False, doc_level=False, bullet=None):
@@ -180,7 +181,7 @@ class Writer:
             assign_delims(b.inl, None, t, self.canonical)
             text = inline_md(b.inl)
             ls = text.split('\n')
-            out = [L(ind + ls[0], False, [b])] + [L(l, True) for l in ls[1:]]
+            out = [L(ind + ls[0], False, [b])] + [L(l, not l.startswith('    ')) for l in ls[1:]]
             ch = '=' if b.level == 1 else '-'
             out.append(L(' ' * b.uindent + ch * b.ulen + b.utrail))
             return out
@@ -270,6 +271,8 @@ class Writer:
                 out.append(L(ind + m + rec.text, rec.lazy, rec.starts, False, False))
                 # mistletoe judges laziness from the look of the previous marked line (recorded finding)
                 prev_indented = rec.text.startswith('    ') or bool(re.match(r' {0,3}(`{3,}|~{3,})', rec.text))
+            for _ in range(b.get('lead_blank', 0)):
+                out.insert(0, L(ind + '>', False, None, False, False))
             out[0].starts = [b] + (out[0].starts or [])
             return out
         if k == 'list':
